@@ -6,6 +6,7 @@ import (
 	"math/rand"
 	"os"
 	"path/filepath"
+	"regexp"
 	"strconv"
 	"strings"
 	"sync/atomic"
@@ -165,8 +166,8 @@ func c14(c *ev.Ctx) {
 			}
 			return x
 		}, randUnicodeString(r))
-		if pat == "" {
-			pat = "a"
+		if pat == "" || strings.HasPrefix(pat, "(?") {
+			pat = "a" + pat
 		}
 		flags := []string{"", "", "i", "m", "im", "mi", "ii", "imi"}[r.Intn(8)]
 		dedup := ""
@@ -204,6 +205,59 @@ func c14(c *ev.Ctx) {
 			}
 		}
 	}
+	// (2b) the meaning of regexp literals, used in sequences with repeats and near-twins
+	// (same pattern with / without flags) across evaluators of one process
+	type reCase struct{ pat, flags string }
+	rePool := []reCase{{"zq-demo", "i"}, {"zq-demo", ""}, {"ZQ-DEMO", ""}, {"^line2$", "m"}, {"^line2$", ""}, {"a.c", ""}, {"a.c", "i"}, {"a\\.c", ""}, {"[0-9]+", ""}, {"x|y", ""}, {"h.llo", "im"}, {"^$", ""}, {"é", "i"}, {"É", ""}}
+	subjects := []string{"ZQ-DEMO", "zq-demo", "line1\nline2", "LINE2", "abc", "a.c", "ABC", "12", "", "héllo", "HÉLLO", "x", "É", "é"}
+	n = c.Pick(300, 20000)
+	c.ParFor(n, func(i int) {
+		id := fmt.Sprintf("remean/%d", i)
+		if !c.Want(id) {
+			return
+		}
+		r := c.Rng("remean", i)
+		// a short sequence over two or three patterns with immediate repeats: A B A A B B A ...
+		k := 2 + r.Intn(2)
+		picks := make([]reCase, k)
+		for q := range picks {
+			picks[q] = rePool[r.Intn(len(rePool))]
+		}
+		for step := 0; step < 8; step++ {
+			rc := picks[r.Intn(k)]
+			if step > 0 && r.Intn(3) == 0 {
+				// repeat the previous one
+			}
+			subj := subjects[r.Intn(len(subjects))]
+			lit := gast.EncodeRegex(rc.pat, rc.flags)
+			goPat := rc.pat
+			if rc.flags != "" {
+				goPat = "(?" + rc.flags + ")" + rc.pat
+			}
+			re, err := regexp.Compile(goPat)
+			if err != nil {
+				continue
+			}
+			want := false
+			for _, line := range strings.Split(subj, "\n") {
+				if re.MatchString(strings.TrimSpace(line)) {
+					want = true
+				}
+			}
+			script := "return [" + gast.EncodeString(subj, '"', nil) + " ~= " + lit + ", " + gast.EncodeString(subj, '"', nil) + " !~ " + lit + ", match(" + gast.EncodeString(subj, '"', nil) + ", " + lit + ")];"
+			evr, err := eng.New(script, eng.Options{NoHook: true, NoOptimize: r.Intn(2) == 0})
+			c.Case(script+fmt.Sprint(i, step), true)
+			got := "rejected"
+			if err == nil {
+				got = evr.Exec(nil).Desc()
+			}
+			wantDesc := fmt.Sprintf("ARRAY:[%v, %v, %v]", want, !want, want)
+			if got != wantDesc {
+				c.Violation(id, "meaning of a regexp literal", map[string]interface{}{"summary": fmt.Sprintf("step %d of a sequence: %s gives %s, Go's regexp for %q on %q says %s", step+1, script, got, goPat, subj, wantDesc), "script": script})
+				return
+			}
+		}
+	})
 	// (3) numbers
 	n = c.Pick(3000, 100000)
 	c.ParFor(n, func(i int) {
